@@ -23,10 +23,12 @@ import (
 	"time"
 
 	sdkmath "cosmossdk.io/math"
+	storetypes "cosmossdk.io/store/types"
 	abci "github.com/cometbft/cometbft/abci/types"
 	sdk "github.com/cosmos/cosmos-sdk/types"
 	"github.com/tidwall/gjson"
 
+	oraclemod "mods.irisnet.org/modules/oracle"
 	otypes "mods.irisnet.org/modules/oracle/types"
 	"mods.irisnet.org/modules/service"
 	stypes "mods.irisnet.org/modules/service/types"
@@ -49,6 +51,9 @@ var provPrice = []int64{1, 2, 3, 50}
 type R struct {
 	env   *hx.Env
 	names map[string]string
+	// Genesis makes Gen emit `oracle export` / `oracle reimport` now and then (C12 runs only: the
+	// C17 histories stay what they were)
+	Genesis bool
 }
 
 func New(env *hx.Env) *R {
@@ -229,6 +234,36 @@ func (r *R) state(ctx sdk.Context) string {
 	sort.Strings(pau)
 	return fmt.Sprintf("t=%d feeds=%s ctx=%s run=%s pau=%s vals=%s", ctx.BlockTime().UnixNano(),
 		strings.Join(fs, ","), strings.Join(cs, ","), strings.Join(run, ","), strings.Join(pau, ","), strings.Join(vs, ","))
+}
+
+// ---------------------------------------------------------------- genesis (C12)
+
+// genesisLine renders the real exported genesis document, entries in the document's own order:
+// name:creator:agg:path:hist:desc:state:v1@t1|v2@t2 (values in the document's order).
+func (r *R) genesisLine(gs *otypes.GenesisState) string {
+	var es []string
+	for _, e := range gs.Entries {
+		f := e.Feed
+		var vv []string
+		for _, v := range e.Values {
+			vv = append(vv, fmt.Sprintf("%s@%d", v.Data, v.Timestamp.UnixNano()))
+		}
+		es = append(es, fmt.Sprintf("%s:%s:%s:%s:%d:%s:%s:%s", hx.Dash(f.FeedName), hx.Dash(r.sym(f.Creator)), hx.Dash(f.AggregateFunc),
+			hx.Dash(f.ValueJsonPath), f.LatestHistory, hx.Dash(f.Description), stateName(e.State), hx.Dash(strings.Join(vv, "|"))))
+	}
+	return hx.Dash(strings.Join(es, ","))
+}
+
+// batches lists the current batch counter of every feed's request context (store order of the
+// feeds; feeds without a context are skipped): the key InitGenesis writes the feed's values under.
+func (r *R) batches(ctx sdk.Context) string {
+	var b []string
+	for _, fi := range r.feeds(ctx) {
+		if fi.found {
+			b = append(b, fmt.Sprintf("%s:%d", fi.feed.FeedName, fi.rc.BatchCounter))
+		}
+	}
+	return hx.Dash(strings.Join(b, ","))
 }
 
 // ---------------------------------------------------------------- outputs
@@ -433,6 +468,44 @@ func (r *R) Exec(ctx sdk.Context, line string) (sdk.Context, string) {
 		return ctx, "ok " + r.state(ctx)
 	case "agg", "aggtol":
 		return ctx, aggregate(hx.Undash(a["fn"]), a["vals"])
+	case "export":
+		// real ExportGenesis of the current state, the verdict of the real ValidateGenesis, the document
+		gs := oraclemod.ExportGenesis(ctx, r.env.Oracle)
+		v := "ok"
+		if p, _ := hx.NoPanic(func() {
+			if err := otypes.ValidateGenesis(*gs); err != nil {
+				v = "err"
+			}
+		}); p {
+			v = "panic"
+		}
+		return ctx, fmt.Sprintf("ok validate=%s gen=%s %s", v, r.genesisLine(gs), r.state(ctx))
+	case "reimport":
+		// export, wipe the oracle module's own store (the service module's request contexts stay),
+		// real InitGenesis; the rest of the history runs on the re-imported state
+		before := r.state(ctx)
+		batches := r.batches(ctx)
+		gs := oraclemod.ExportGenesis(ctx, r.env.Oracle)
+		class, _ := hx.Try(ctx, func(c sdk.Context) error {
+			st := c.KVStore(r.env.App.GetKey(otypes.StoreKey))
+			it := storetypes.KVStorePrefixIterator(st, nil)
+			var keys [][]byte
+			for ; it.Valid(); it.Next() {
+				keys = append(keys, append([]byte{}, it.Key()...))
+			}
+			it.Close()
+			for _, k := range keys {
+				st.Delete(k)
+			}
+			oraclemod.InitGenesis(c, r.env.Oracle, *gs)
+			return nil
+		})
+		after := r.state(ctx)
+		same := 0
+		if before == after {
+			same = 1
+		}
+		return ctx, fmt.Sprintf("%s same=%d batches=%s %s", class, same, batches, after)
 	}
 	hx.Fail("unknown op %q", line)
 	return ctx, ""
